@@ -28,9 +28,10 @@ TYP = {
 LIT_MEMBERS = {"Lit": ["a", "b"], "Opt_Lit": ["a", "b"], "Lit3u": ["b", "a", "c"], "Lit2": ["utf_8", "v1"], "Opt_Lit2": ["utf_8", "v1"],
                "LitP": ["channels-first", "channels last", "v1.2"], "Opt_LitP": ["channels-first", "channels last", "v1.2"]}
 
-NAMES = [["alpha", "dataset_name", "a", "lr"], ["beta", "tfds_dir", "b", "momentum"], ["gamma_", "k", "c", "as_numpy"],
-         ["delta", "n_steps", "d", "eps"], ["epsilon", "data_loader", "e", "decay"], ["zeta", "log_dir", "f", "nesterov"],
-         ["eta", "batch_size", "g", "clip"], ["theta", "n_epochs", "h", "amsgrad"]]
+NAMES = [["alpha", "dataset_name", "a", "lr", "_alpha"], ["beta", "tfds_dir", "b", "momentum", "_beta"], ["gamma_", "k", "c", "as_numpy", "_c"],
+         ["delta", "n_steps", "d", "eps", "_delta"], ["epsilon", "data_loader", "e", "decay", "_e"], ["zeta", "log_dir", "f", "nesterov", "_zeta"],
+         ["eta", "batch_size", "g", "clip", "_g"], ["theta", "n_epochs", "h", "amsgrad", "_theta"]]
+# (column 4: identifiers with a leading underscore -- used where NAME_COLS asks for it)
 
 CAND_NAMES = ["dataset_name", "user_id"]     # primary-key candidates by name (C05)
 INT_POS = [5, 1, 42, 100]
@@ -60,7 +61,7 @@ class Gamma(object):
         return pool[(self.rnd.randrange(1 << 16) if False else salt) % len(pool)]
 
     def name(self, k, salt):
-        cols = NAME_COLS[0] or list(range(len(NAMES[0])))
+        cols = NAME_COLS[0] or [0, 1, 2, 3]
         return NAMES[k % len(NAMES)][cols[salt % len(cols)]]
 
     def default(self, d, typ, salt):
